@@ -121,3 +121,6 @@ class Tolerancing:
 
         for compensator in self.compensator.variables:
             compensator.reset()
+
+        # pickup targets and solved gaps follow the restored values
+        self.optic.update()
